@@ -2,7 +2,14 @@
 from vlib.common import CheckerError
 
 META = {
-    "level": "exploration",
+    "level": "other",
+    "structural": "Deductive (unbounded, from the AST of the real PanthLikelihood.get_pred / clear_data, model function opaque with H^2 > 0): for every redshift array "
+                  "with 1+z >= 1 (any length, order, duplicates) the grid built on a cold cache is strictly increasing, starts at exactly 1 and contains every redshift; "
+                  "mask_i is the grid index of redshift i (the list of np.where results has exactly one entry per redshift); the returned value is "
+                  "5 log10(zp1_i * T_i) + mu_const with T_i the composite trapezoid sum (scipy's cumulative_trapezoid, initial=0) of 1/sqrt(H^2) over the grid from 1 to zp1_i, "
+                  "also when the model returns a scalar; a warm cache that satisfies the same invariant is re-used and gives the same formula; the analytic path returns "
+                  "5 log10(zp1_i (F(zp1_i) - F(1))) + mu_const and never modifies the redshift array handed in (checked with a model that returns its own argument); "
+                  "clear_data() removes grid and mask together. Not proved: that the trapezoid sum converges to the integral (classical error analysis; bounded part).",
     "text": "Bounded stand-in on the real PanthLikelihood.get_pred / clear_data / run_sympify (object built with __new__, because the Pantheon "
             "files are empty in this image; delta_z=0.02, min_nz=10 as in __init__): for 8 families of smooth positive H^2 (LambdaCDM-like, "
             "power law, exponential, constant returned as scalar and as array, parameter-free, wCDM-like, curved) with random parameters and "
@@ -13,20 +20,50 @@ META = {
             "permutes the prediction; a second call re-using the cached grid gives the same values; after a call with another redshift set, "
             "clear_data() resets data_x/data_mask and the next call rebuilds a grid that contains every redshift and gives the values of a "
             "fresh object. For strings whose 1/sqrt(H^2) sympy integrates within the time limit (run_sympify(try_integration=True)) the "
-            "integrated path agrees with the integral (1e-7 mag) and with the numerical path (same grid tolerance). The deductive part "
-            "(grid/mask structure, two-state cache protocol) is not discharged yet.",
+            "integrated path agrees with the integral (1e-7 mag) and with the numerical path (same grid tolerance).",
     "note": "Bounded; oracle = scipy.integrate.quad (epsrel 1e-13) and a finite-difference bound on |f''|. An analytic integration that does not "
             "succeed is counted as not exercised. Without clear_data() the cached grid of the previous redshift set is re-used whatever the "
             "new redshifts are (the cache has no key): recorded in the notes as existing behaviour, not part of the property. "
             "A-numpy/scipy: linspace, unique, sort, cumulative_trapezoid behave as documented.",
-    "technique": "bounded stand-in of the contract against an independent adaptive quadrature on the real code; metamorphic relations "
-                 "(duplicates, permutation, cache reuse, clear-and-rebuild); deductive part pending",
+    "technique": "contract-based deductive verification of get_pred / clear_data (AST->VC->SMT: grid and mask structure, trapezoid formula, frame, cache protocol) "
+                 "+ bounded stand-in of the integral against an independent adaptive quadrature on the real code; metamorphic relations "
+                 "(duplicates, permutation, cache reuse, clear-and-rebuild)",
 }
 CHECKER = "./bin/check C19"
 
 
+VARIANTS = ["cold", "half", "warm", "scalar", "integrated", "alias"]
+
+
+def deductive(run):
+    from vlib import deductive as D
+    from contracts import c_pantheon
+    failed = []
+    opts = lambda eng: setattr(eng, "solver_opts", eng.PORTFOLIO_SHORT_FIRST)
+    for v in VARIANTS:
+        mk = (lambda v=v: c_pantheon.get_pred_contract(v))
+        st, f, eng = D.verify_function(run, "fitting/likelihood.py", "PanthLikelihood.get_pred", mk, timeout_ms=10000, engine_setup=opts,
+                                       note="variant '%s' of the cache state / model function (see contracts/c_pantheon.py); numpy and scipy calls through external contracts" % v,
+                                       tag=v)
+        failed += f
+        if st != "unsupported" and v in ("cold", "integrated") and D.canary(run, "fitting/likelihood.py", "PanthLikelihood.get_pred", mk, engine_setup=opts) is False:
+            raise RuntimeError("canary verified: engine vacuous on PanthLikelihood.get_pred (%s)" % v)
+    st, f, eng = D.verify_function(run, "fitting/likelihood.py", "PanthLikelihood.clear_data", c_pantheon.clear_data_contract, timeout_ms=5000)
+    failed += f
+    run.trust("pyvc", "z3 5.1.0")
+    run.assume("A-ext (assumed external contracts, pyvc/models_np2.py): ndarray.max/min, np.linspace (end points, monotone, between its end points), np.concatenate, "
+               "np.unique (strictly increasing, same set of values), np.sort (identity on a strictly increasing array), np.where, np.squeeze(np.array(list of 1-element "
+               "index arrays)), np.full, np.isscalar, scipy.integrate.cumulative_trapezoid(initial=0) = composite trapezoid sums, np.log10; in-place *= on arrays",
+               "A-lemma: trapezoid sums of arrays that agree entry by entry are equal (extensionality of the spec function TRAPZ)",
+               "A-float: floats are exact reals (no rounding): equality tests such as data_x == d are exact",
+               "the model function is a function of the abscissa only during one call, H^2 > 0; a 0-d mask (single redshift) is treated as a 1-element array",
+               "classical: the composite trapezoid sum converges to the integral as the grid step goes to 0 (not verified; bounded part compares with quad)")
+    return failed
+
+
 def check(run):
     thorough = run.tier != "quick"
+    dfailed = deductive(run)
     p = {"mode": "run", "seed": run.seed, "n_cases": 8 * 11 * (100 if thorough else 16), "n_analytic": 600 if thorough else 120,
          "big": 24 if thorough else 2, "workers": 16 if thorough else 8}
     res = run.harness("rt_c19.py", p, timeout=3000 if thorough else 600)
@@ -59,6 +96,9 @@ def check(run):
         case = {k: v for k, v in f.items() if k != "error"}
         run.violation("c19:%s:%s:%s" % (f.get("kind"), f.get("family", f.get("fstr")), f.get("zkind", len(f.get("zp1", [])))),
                       f["error"][:900], {"harness": "rt_c19.py", "payload": {"mode": "cases", "cases": [case]}})
-    return run.finish("exploration", META["text"], CHECKER,
+    if dfailed and not run.violations:
+        from checks.C14 import report_unproved
+        report_unproved(run, dfailed, False, "likelihood.PanthLikelihood.get_pred / clear_data")
+    return run.finish("other", META["structural"] + " " + META["text"], CHECKER,
                       rule="cases = (H^2 family, parameter vector, redshift sample) triples and (string, parameters, sample) triples; distinct_nontrivial = "
                            "numeric cases plus those analytic cases in which sympy produced an antiderivative")
